@@ -27,7 +27,7 @@ BUDGET = {'quick': dict(examples=960, shards=16, seconds=80),
           'thorough': dict(examples=6000, shards=16, seconds=1200)}
 
 KINDS = ['add_field', 'add_computed', 'delete_fields', 'select_fields', 'rename_fields', 'find_replace', 'set_type', 'validate',
-         'filter_rows', 'unpivot', 'concatenate', 'delete_resource', 'concatenate', 'printer', 'dump_to_path', 'dump_to_zip', 'stream_file', 'checkpoint',
+         'filter_rows', 'unpivot', 'concatenate', 'delete_resource', 'concatenate', 'set_pk_dedupe', 'printer', 'dump_to_path', 'dump_to_zip', 'stream_file', 'checkpoint',
          'row_fn', 'rows_fn', 'update_resource', 'update_schema', 'update_package', 'update_stats', 'finalizer']
 BOUND = 100 + 64
 FIELDS = [{'name': '_p', 'type': 'integer'}, {'name': 'id', 'type': 'integer'}, {'name': 'g', 'type': 'integer'},
